@@ -537,6 +537,12 @@ def obligations(tier):
     for n in ((1, 2, 3) if tier == "thorough" else (1, 2)):
         obs.append(Ob(f"add_feature_extremes/n{n}", __name__, "mk_add_feature_extremes", {"nspans": n}, timeout=600, group="insert"))
         obs.append(Ob(f"gff_records_extremes/n{n}", __name__, "mk_gff_records", {"nspans": n}, timeout=600, group="insert"))
+    from props import c17_ops
+
+    for cls in c17_ops.CLASSES:
+        for op in c17_ops.OPS:
+            obs.append(Ob(f"records_preserved/{cls}/{op}", "props.c17_ops", "mk_db_op", {"op": op, "cls_name": cls}, timeout=1800, group="ops"))
+    obs.append(Ob("records_preserved/Basic+Gff/union", "props.c17_ops", "mk_db_op", {"op": "union", "cls_name": "BasicAnnotationDb", "other_cls": "GffAnnotationDb"}, timeout=1800, group="ops"))
     return obs
 
 
